@@ -103,8 +103,25 @@ def lean_check_file(file, timeout=3000):
     return p.returncode == 0, p.stdout
 
 
+_driver_built = [False]
+
+
+def driver_imports():
+    out = []
+    with open(os.path.join(LEAN_DIR, 'Driver.lean')) as f:
+        for ln in f:
+            if ln.startswith('import '):
+                out.append(ln.split()[1])
+    return out
+
+
 def driver(lines, timeout=3000):
     """feed lines to Driver.lean, return list of output lines"""
+    if not _driver_built[0]:
+        ok, out = lake_build(driver_imports())
+        if not ok:
+            raise InfraError('building the model modules imported by Driver.lean failed:\n' + out[-2000:])
+        _driver_built[0] = True
     text = '\n'.join(lines) + '\n'
     out = lean_run('Driver.lean', text, timeout=timeout)
     res = out.split('\n')
